@@ -18,7 +18,7 @@ import time
 
 VERIF = os.path.dirname(os.path.dirname(os.path.abspath(__file__)))
 REPO = os.environ.get("DMNTK_REPO", "/repo")
-CACHE = os.path.join(VERIF, ".cache")
+CACHE = os.environ.get("VERIF_CACHE") or os.path.join(VERIF, ".cache")     # VERIF_CACHE: scratch cache of a parallel self-test worker
 DRIVER_DIR = os.path.join(VERIF, "engine", "driver")
 DRIVER = os.path.join(DRIVER_DIR, "target", "release", "dmntk-verif-driver")
 TARGET = os.path.join(CACHE, "target")
